@@ -46,6 +46,14 @@ Theorem C08_handoff_unconnected_ignored : forall ttl s l r,
   primary_loop ttl s (PHandoff false l :: r) = primary_loop ttl s r.
 Proof. exact handoff_unconnected_ignored. Qed.
 
+(* no node replicates from a cluster whose id differs from its own stored id *)
+Theorem C08_attach_foreign_refused : forall a b, a <> b -> attach (Some a) (Some b) = (Some a, false).
+Proof. exact attach_foreign_refused. Qed.
+Theorem C08_attach_keeps_id : forall a s, fst (attach (Some a) s) = Some a.
+Proof. exact attach_keeps_id. Qed.
+Theorem C08_attach_follows_only_own : forall l s c, attach l s = (Some c, true) -> s = Some c /\ (l = None \/ l = Some c).
+Proof. exact attach_follows_only_own. Qed.
+
 Example C08_nonvacuous :
   (iter_obs {| i_candidate := true; i_local_cid := true; i_cid := CidEqual; i_handoff := None; i_info1 := InfoAbsent; i_acquire := AcqOk; i_info2 := InfoAbsent |},
    iter_obs {| i_candidate := false; i_local_cid := true; i_cid := CidEqual; i_handoff := None; i_info1 := InfoAbsent; i_acquire := AcqOk; i_info2 := InfoAbsent |},
